@@ -262,10 +262,15 @@ class Prog:
                 self.feat("array-of-aggregates")
         elif c < 0.88:
             name = self.uid("str")
-            txt = r.choice(("", "a", "hello", "a\\n", "tab\\t", "q\\\"q", "x\\\\y", "\\x41", "\\101z"))
+            txt = r.choice(("", "a", "hello", "a\\n", "tab\\t", "q\\\"q", "x\\\\y", "\\x41", "\\101z", "\\377", "\\200z",
+                            "a\\xff", "\\376\\177\\1"))
             form = r.random()
             if form < 0.4:
-                self.top.append("%schar %s[] = \"%s\";" % (quals, name, txt))
+                ct = r.choice(("char", "char", "unsigned char", "signed char"))
+                dim = r.choice(("", "", "8"))
+                self.top.append("%s%s %s[%s] = \"%s\";" % (quals, ct, name, dim, txt))
+                if ct != "char":
+                    self.feat("string-literal-into-%s-char-array" % ct.split()[0])
             elif form < 0.7:
                 self.top.append("%schar *%s = \"%s\";" % ("const " if "const" in quals else "", name, txt))
             else:
@@ -289,6 +294,17 @@ class Prog:
                 gn, t = r.choice(self.gints)
                 self.top.append("%s *%s = &%s;" % (t, name, gn))
                 self.feat("address-of-global-initializer")
+        elif r.random() < 0.6:
+            # integer constant converted to a pointer (negative, huge, through a narrower integer type)
+            name = self.uid("ip")
+            e = self.cexpr()
+            pt = r.choice(("void", "char", "int", "unsigned char"))
+            via = r.choice(("", "", "(int)", "(unsigned)", "(short)", "(long)"))
+            neg = r.choice(("", "-", "~"))
+            if G.K_PACK in self.cavoid:
+                neg, via = "", "(unsigned)"
+            self.top.append("%s *%s = (%s *)%s%s(%s);" % (pt, name, pt, via, neg, e.text))
+            self.feat("integer-constant-to-pointer-initializer")
         else:
             name = self.uid("np")
             self.top.append("%s *%s = 0;" % (self.inttype(), name))
